@@ -5,6 +5,7 @@ package c16patches
 import (
 	"fmt"
 	"strings"
+	"sync"
 
 	"deps.dev/util/resolve"
 	"deps.dev/util/resolve/dep"
@@ -167,6 +168,72 @@ func VerifPatches() {
 	if len(got) > 1 {
 		verifrt.Reach("several-patches")
 	}
+}
+
+// VerifPatchChain: a chain of follow-up attempts. Patching A introduces B; patching {A,B}
+// introduces C; patching {A,B,C} introduces D and E (each then patched without further vulnerabilities), so that two follow-ups are started from one
+// result that already carries three vulnerability IDs. Independently of the schedule every
+// introduced vulnerability is attempted exactly once (individual re-patching) and the patch list
+// is the canonical one.
+func VerifPatchChain() {
+	base := []resolve.RequirementVersion{req("lib", "1.0.0")}
+	table := map[string]struct {
+		version string
+		vulns   []string
+	}{
+		"A":         {"2.0.0", []string{"B"}},
+		"A+B":       {"3.0.0", []string{"C"}},
+		"A+B+C":     {"4.0.0", []string{"D", "E"}},
+		"A+B+C+D":   {"5.0.0", nil},
+		"A+B+C+E":   {"6.0.0", nil},
+	}
+	var calls []string
+	var bk sync.Mutex
+	fn := func(ids []string) common.StrategyResult {
+		verifrt.Yield()
+		key := strings.Join(ids, "+")
+		bk.Lock()
+		calls = append(calls, key)
+		bk.Unlock()
+		res := common.StrategyResult{VulnIDs: ids}
+		t, ok := table[key]
+		if !ok {
+			res.Err = common.ErrPatchImpossible
+			return res
+		}
+		res.Resolved = resolved([]resolve.RequirementVersion{req("lib", t.version)}, t.vulns...)
+		return res
+	}
+	orig := resolved(base, "A")
+	verifrt.ExploreSchedules(true)
+	got, err := common.ComputePatches(fn, orig, false)
+	verifrt.ExploreSchedules(false)
+	verifrt.Assert(err == nil, "patch computation succeeds under every schedule")
+	verifrt.Reach("chain-computed")
+	// every attempt the introduced vulnerabilities call for is made, exactly once
+	want := []string{"A", "A+B", "A+B+C", "A+B+C+D", "A+B+C+E"}
+	sorted := append([]string(nil), calls...)
+	for i := range sorted {
+		for j := i + 1; j < len(sorted); j++ {
+			if sorted[j] < sorted[i] {
+				sorted[i], sorted[j] = sorted[j], sorted[i]
+			}
+		}
+	}
+	wantSorted := append([]string(nil), want...)
+	for i := range wantSorted {
+		for j := i + 1; j < len(wantSorted); j++ {
+			if wantSorted[j] < wantSorted[i] {
+				wantSorted[i], wantSorted[j] = wantSorted[j], wantSorted[i]
+			}
+		}
+	}
+	verifrt.Assert(strings.Join(sorted, " ") == strings.Join(wantSorted, " "), "every introduced vulnerability is attempted exactly once, whatever the interleaving")
+	sys := resolve.NPM.Semver()
+	for i := 0; i+1 < len(got); i++ {
+		verifrt.Assert(got[i].Compare(got[i+1], sys) < 0, "the patch list is sorted and has no duplicates")
+	}
+	verifrt.Assert(len(got) == 5, "the patch list holds one patch per distinct outcome under every interleaving")
 }
 
 // VerifTwin must be violated.
